@@ -9,6 +9,7 @@ key source with no -s option, from several working directories; both pcapng byte
 import itertools
 import os
 import random
+import struct
 
 from vlib import corpus, e2e, engine, gen, netsynth as ns, outparse, runner, scene, tcpcap
 
@@ -96,6 +97,9 @@ def deliveries(rng, lines, quic, thorough, big=False):
         out.append(("dsb-per-line-no-final-eol-scattered", None, [(None, l.encode()) for l in L], {}))
     out.append(("dsb-no-final-eol+file", text(L[len(L) // 2:]) if len(L) > 1 else b"\n", [("before", noeol(L[: max(1, len(L) // 2)]))], {}))
     out.append(("dsb-short-line-block", None, [("before", b"#\n"), ("before", text(L))], {}))
+    # the capture also carries secrets of other protocols (ZigBee keys are 16 binary octets, WireGuard logs are text): they are not TLS key-log text and supply nothing
+    out.append(("dsb-among-foreign-secrets", None, [("before-raw", struct.pack("<II", 0x5A4E574B, 16) + bytes([0x80 | rng.randrange(128)]) + rng.randbytes(15)), ("before", text(L)),
+                                                    ("before-raw", struct.pack("<II", 0x57474B4C, 28) + b"LOCAL_STATIC_PRIVATE_KEY = x\n")], {}))
     out.append(("dsb-before-bigendian", None, [("before", text(L))], {"le": False}))
     out.append(("file-bigendian", text(L), [], {"le": False}))
     out.append(("dsb-before-idb", None, [("pre-idb", text(L))], {}))
@@ -181,6 +185,9 @@ def eval_case(case, rng, thorough):
         pre = [("dsb", d_) for p_, d_ in dsbs if p_ == "pre-idb"]
         dsbs = [(p_, d_) for p_, d_ in dsbs if p_ != "pre-idb"]
         for pos, data in dsbs:
+            if pos == "before-raw":         # a whole secrets-block body (secrets type, length, data) of another protocol, in front of everything
+                blocks.insert(0, ("raw", 10, data + b"\x00" * ((-len(data)) % 4)))
+                continue
             if pos == "before":
                 idx = 0
             elif pos == "after":
